@@ -2,7 +2,7 @@
    (harness/overlay/state/verif_c06_state_test.go, harness/overlay/types/verif_c06_types_test.go),
    the property monitors evaluated on the implementation's own answers, and the comparison of
    the model with the implementation.  Depends on Model.v (and C07.Model) only. *)
-From Coq Require Import List ZArith NArith Bool.
+From Coq Require Import String List ZArith NArith Bool.
 From TM Require Import Common.Hex Generated.Consts C07.Model C06.Model.
 Import ListNotations.
 Open Scope Z_scope.
@@ -92,6 +92,14 @@ Definition pupdt := (option (Z * Z) * option (Z * Z * Z) * option (list Z) * opt
 Definition mk_pupd (t : pupdt) : param_update :=
   let '(b, e, v, a) := t in {| pu_block := b; pu_evidence := e; pu_validator := v; pu_version := a |}.
 
+(* a DeliverTx response: Code, Data, Log, Info, GasWanted, GasUsed, Events (each as its proto
+   encoding), Codespace; byte strings in hex *)
+Definition respt := (Z * string * string * string * Z * Z * list string * string)%type.
+Definition mk_resp (t : respt) : dresp :=
+  let '(code, data, log, info, gw, gu, evs, cs) := t in
+  {| r_code := code; r_data := unhex data; r_log := unhex log; r_info := unhex info;
+     r_gas_wanted := gw; r_gas_used := gu; r_events := map unhex evs; r_codespace := unhex cs |}.
+
 Inductive case :=
 (* validateBlock(st, blk): error class of the implementation (0 = accepted) *)
 | CValidate (st : stt) (blk : blkt) (orc : orct) (res_i : N)
@@ -114,6 +122,13 @@ Inductive case :=
           (class_i : N) (st_i : stt) (same_state same_hash : bool)
 (* proto sizes: Header, Commit and its CommitSigs; ValidateBasic verdicts (true = nil) *)
 | CSizes (hdr : hdrt) (cm : committ) (hsize_i csize_i : Z) (ssizes_i : list Z) (hvb_i cvb_i : bool)
+         (mcb_i : Z)                     (* the implementation's MaxCommitBytes(number of slots) *)
+(* two nodes apply the same block to the same state; their applications answered DeliverTx with
+   [ra] and [rb].  The implementation's leaves of the results tree (NewResults(r)[i].Marshal()),
+   LastResultsHash of the two next states, whether the next State.Bytes() are equal, and what
+   validateBlock says on each node about the block the first node proposes next *)
+| CResults (ra rb : list respt) (leaves_a leaves_b : list string) (hash_a hash_b : hvt)
+           (same_next : bool) (accept_a accept_b : N)
 (* MaxDataBytes(maxBytes, evBytes, n), MaxDataBytesNoEvidence(maxBytes, n); -1 = panic *)
 | CBudget (max_bytes ev_bytes n : Z) (mdb_i mdbne_i mcb_i : Z)
 (* Go variables the model has as literals: version.BlockProtocol, types.MaxSignatureSize *)
@@ -246,6 +261,49 @@ Definition state_okb (st : state) : bool :=
 
 Definition sum_pow (vs : list validator) : Z := fold_right (fun v a => v_power v + a) 0 vs.
 
+(* ------------------------------------------------------------------ updateState, specified *)
+
+Definition opt_is_none {A} (o : option A) : bool := match o with None => true | Some _ => false end.
+
+(* the next consensus parameters: every group of the update replaces its group, absent groups and
+   TimeIotaMs stay *)
+Definition params_spec (p : params) (u : option pupdt) (p' : params) : bool :=
+  match u with
+  | None => params_eqb p' p
+  | Some (b, e, v, a) =>
+    (match b with
+     | Some (mb, mg) => (p_max_bytes p' =? mb) && (p_max_gas p' =? mg)
+     | None => (p_max_bytes p' =? p_max_bytes p) && (p_max_gas p' =? p_max_gas p)
+     end)
+    && (p_time_iota p' =? p_time_iota p)
+    && (match e with
+        | Some (ab, ad, mb) =>
+          (p_ev_age_blocks p' =? ab) && (p_ev_age_dur p' =? ad) && (p_ev_max_bytes p' =? mb)
+        | None => (p_ev_age_blocks p' =? p_ev_age_blocks p) && (p_ev_age_dur p' =? p_ev_age_dur p)
+                  && (p_ev_max_bytes p' =? p_ev_max_bytes p)
+        end)
+    && (match v with
+        | Some ts => zlist_eqb (p_pk_types p') ts
+        | None => zlist_eqb (p_pk_types p') (p_pk_types p)
+        end)
+    && (match a with
+        | Some x => p_app_version p' =? x
+        | None => p_app_version p' =? p_app_version p
+        end)
+  end.
+
+(* ------------------------------------------------------------------ responses *)
+
+Definition det_eqb (x y : Z * bytes * Z * Z) : bool :=
+  let '(c, d, w, u) := x in let '(c', d', w', u') := y in
+  (c =? c') && bytes_eqb d d' && (w =? w') && (u =? u').
+Fixpoint list_eqb {A} (eqb : A -> A -> bool) (a b : list A) : bool :=
+  match a, b with
+  | [], [] => true
+  | x :: a', y :: b' => eqb x y && list_eqb eqb a' b'
+  | _, _ => false
+  end.
+
 (* ------------------------------------------------------------------ the check *)
 
 Definition check (c : case) : verdict :=
@@ -325,15 +383,41 @@ Definition check (c : case) : verdict :=
                           (fun _ _ => match upd_oracle with Some l => Some (map mk_val l) | None => None end)
                           st (mk_bid block_id) (mk_header hdr) results_h (map mk_val ups)
                           (match pu with Some u => Some (mk_pupd u) | None => None end) in
+    let n := mk_state st_i in
+    let h := mk_header hdr in
+    let ok := (class_i =? 0)%N in
+    let no_ups := match ups with [] => true | _ => false end in
     first_of [
       viol same_state 7;            (* two replicas: byte-identical next states *)
       viol same_hash 8;             (* two replicas: identical block hashes *)
+      (* the implementation's own next state against the specification of the transition *)
+      viol (negb ok ||
+            ((st_last_height n =? h_height h) && bid_eqb (st_last_bid n) (mk_bid block_id)
+             && (st_last_time n =? h_time h) && hv_eq (st_chain n) (st_chain st)
+             && (st_initial n =? st_initial st) && (st_vblock n =? st_vblock st))) 13;
+      viol (negb ok ||
+            (vals_eqb (st_vals n) (st_next_vals st) && vals_eqb (st_last_vals n) (st_vals st)
+             && (if no_ups then vals_eqb (st_next_vals n) (st_next_vals st)
+                 else match upd_oracle with
+                      | Some l => vals_eqb (st_next_vals n) (map mk_val l)
+                      | None => false
+                      end))) 14;
+      viol (negb ok ||
+            (if no_ups then st_lhvc n =? st_lhvc st else st_lhvc n =? h_height h + 2)) 15;
+      viol (negb ok ||
+            (params_spec (st_params st) pu (st_params n)
+             && (if opt_is_none pu then (st_lhpc n =? st_lhpc st) && (st_vapp n =? st_vapp st)
+                 else (st_vapp n =? p_app_version (st_params n))
+                      && ((st_lhpc n =? h_height h + 1)
+                          || (params_eqb (st_params n) (st_params st) && (st_lhpc n =? st_lhpc st)))))) 16;
+      viol (negb ok ||
+            (hv_eq (st_results_hash n) (mk_hv results_h) && hv_eq (st_app_hash n) hv_empty)) 17;
       mism (match r with
             | US_ok s' => (class_i =? 0)%N && state_eqb s' (mk_state st_i)
             | US_err_valset => (class_i =? 1)%N
             | US_err_params _ => (class_i =? 2)%N
             end) 41 ]
-  | CSizes hdr cm hsize_i csize_i ssizes_i hvb_i cvb_i =>
+  | CSizes hdr cm hsize_i csize_i ssizes_i hvb_i cvb_i mcb_i =>
     let h := mk_header hdr in
     let c := mk_commit cm in
     let n := Z.of_nat (List.length (cm_sigs c)) in
@@ -344,17 +428,41 @@ Definition check (c : case) : verdict :=
       (* a commit that passes ValidateBasic (block id well-formed) stays within MaxCommitBytes *)
       viol (negb (cvb_i && bid_validate_basic (cm_bid c) && (1 <=? cm_height c))
             || (csize_i <=? max_commit_bytes n)) 10;
+      (* ... and within what the implementation's own MaxCommitBytes budgets for it *)
+      viol (negb (cvb_i && bid_validate_basic (cm_bid c) && (1 <=? cm_height c))
+            || (csize_i <=? mcb_i)) 18;
       mism (header_size h =? hsize_i) 51;
       mism (commit_size c =? csize_i) 52;
       mism (zlist_eqb (map slot_size (cm_sigs c)) ssizes_i) 53;
       mism (Bool.eqb (match header_validate_basic h with None => true | Some _ => false end) hvb_i) 54;
-      mism (Bool.eqb (commit_validate_basic c) cvb_i) 55 ]
+      mism (Bool.eqb (commit_validate_basic c) cvb_i) 55;
+      mism (max_commit_bytes n =? mcb_i) 58 ]
   | CBudget max_bytes ev_bytes n mdb_i mdbne_i mcb_i =>
     let un o := match o with Some m => m | None => -1 end in
     first_of [
       mism (un (max_data_bytes max_bytes ev_bytes n) =? mdb_i) 56;
       mism (un (max_data_bytes_no_evidence max_bytes n) =? mdbne_i) 57;
       mism (max_commit_bytes n =? mcb_i) 58 ]
+  | CResults ra rb la lb ha hb same_next accept_a accept_b =>
+    let a := map mk_resp ra in
+    let b := map mk_resp rb in
+    let det_same := list_eqb det_eqb (map det_fields a) (map det_fields b) in
+    let la' := map unhex la in
+    let lb' := map unhex lb in
+    first_of [
+      (* the applications agree on (Code, Data, GasWanted, GasUsed) of every transaction: same
+         leaves, same LastResultsHash, same next state, and the second node treats the first
+         node's next block as the first node does *)
+      viol (negb det_same
+            || (list_eqb bytes_eqb la' lb' && hv_eq (mk_hv ha) (mk_hv hb) && same_next
+                && (accept_b =? accept_a)%N)) 11;
+      (* they disagree on one of these fields: different LastResultsHash, different next states,
+         and the second node does not accept a block the first node considers valid *)
+      viol (det_same
+            || (negb (hv_eq (mk_hv ha) (mk_hv hb)) && negb same_next
+                && (negb (accept_a =? 0)%N || negb (accept_b =? 0)%N))) 12;
+      mism (list_eqb bytes_eqb (results_leaves a) la') 61;
+      mism (list_eqb bytes_eqb (results_leaves b) lb') 61 ]
   | CConsts bp ms =>
     first_of [ mism (bp =? block_protocol) 60; mism (ms =? max_signature_size) 60 ]
   end.
